@@ -577,11 +577,210 @@ Definition blend_scalars (e : env) (s : ist) : cres (list (option Z) * ist) :=
     end
   end.
 
+(* ---------- visit_impl ----------
+   One iteration of the `while s.bytes_available()` loop is `step`; it is parameterised by
+     rec  : visit_impl on another charstring (subroutine, seac component) at a given depth
+     k    : the remaining iterations on the bytes that are left
+   so that `run` below is just the two nested recursions. *)
+Section Step.
+Variable rec : Z -> list Z -> ist -> cres ist.
+Variable k : list Z -> ist -> cres ist.
+Variable e : env.
+Variable depth : Z.
+
 (* after a subroutine returns *)
-Definition after_call (s : ist) (rest : list Z) : option (cres ist) :=
+Definition after_call (s : ist) (rest : list Z) : cres ist :=
   if endchar_seen s && negb (seac_seen s) then
-    match rest with [] => Some (COk s) | _ => Some (CErr EDataAfterEndChar) end
-  else None.
+    match rest with [] => COk s | _ => CErr EDataAfterEndChar end
+  else k rest s.
+
+Definition step_stem (op : Z) (r : list Z) (s : ist) : cres ist :=
+  let '(cnt, w) := stem_count s in
+  st <~ add_u32 (e_mode e) (stems s) (cnt / 2) ;;
+  s1 <~ visit_op op 0 (set_stems (set_wparsed s w) st) ;;
+  k r (set_stk s1 []).
+
+Definition step_move (nargs : Z) (op : Z) (r : list Z) (s : ist) : cres ist :=
+  let '(off, w) := move_offset s nargs in
+  s1 <~ visit_op op off (set_wparsed s w) ;;
+  k r (set_stk s1 []).
+
+Definition step_simple (op : Z) (r : list Z) (s : ist) : cres ist :=
+  s1 <~ visit_op op 0 s ;;
+  k r (set_stk s1 []).
+
+Definition step_call (subrs : option (list (list Z))) (r : list Z) (s : ist) : cres ist :=
+  match stk s with [] => CErr EInvalidArgumentsStackLength | _ =>
+  if depth =? STACK_LIMIT then CErr ENestingLimitReached else
+  match subrs with
+  | None => CErr ENoLocalSubroutines
+  | Some subrs =>
+    '(v, s1) <~ pop s ;;
+    idx <~ conv_subroutine_index v (calc_subroutine_bias (len subrs)) ;;
+    match nth_opt subrs idx with
+    | None => CErr EInvalidSubroutineIndex
+    | Some sub => s2 <~ rec (depth + 1) sub s1 ;; after_call s2 r
+    end
+  end end.
+
+Definition step_escape (r : list Z) (s : ist) : cres ist :=
+  match r with
+  | [] => CErr (EParse Eof)
+  | op2 :: r2 =>
+    if is_flex_op op2 then s1 <~ visit_op op2 0 s ;; k r2 (set_stk s1 [])
+    else CErr EUnsupportedOperator
+  end.
+
+Definition seac_gid (v : Z) : option Z :=
+  match try_as_u8 v with Some c => seac_code_to_gid e c | None => None end.
+
+(* the `Process 'seac'` block *)
+Definition step_seac (s : ist) : cres ist :=
+  if depth =? STACK_LIMIT then CErr ENestingLimitReached else
+  '(av, s1) <~ pop s ;;
+  match seac_gid av with
+  | None => CErr EInvalidSeacCode
+  | Some accent =>
+  '(bv, s1) <~ pop s1 ;;
+  match seac_gid bv with
+  | None => CErr EInvalidSeacCode
+  | Some base =>
+  '(dy, s1) <~ pop s1 ;;
+  '(dx, s1) <~ pop s1 ;;
+  s1 <~ (if negb (wparsed s1) && negb (len (stk s1) =? 0)
+         then '(_, s') <~ pop s1 ;; COk (set_wparsed s' true) else COk s1) ;;
+  let s1 := set_seac s1 true in
+  match nth_opt (e_glyphs e) base with
+  | None => CErr EInvalidSeacCode
+  | Some bcs =>
+    (* each component is a complete charstring: own width and hints *)
+    s2 <~ rec (depth + 1) bcs (set_stems (set_wparsed s1 false) 0) ;;
+    match nth_opt (e_glyphs e) accent with
+    | None => CErr EInvalidSeacCode
+    | Some acs =>
+      (* enter_seac(Accent): x = dx, y = dy *)
+      rec (depth + 1) acs (set_ps (set_stems (set_wparsed s2 false) 0) (set_xy (ps s2) dx dy) [])
+    end
+  end end end.
+
+Definition step_endchar (op : Z) (r : list Z) (s : ist) : cres ist :=
+  match e_kind e with
+  | KCFF2 => CErr EInvalidOperator
+  | KCFF =>
+    s3 <~ (if (len (stk s) =? 4) || (negb (wparsed s) && (len (stk s) =? 5)) then step_seac s
+           else if (len (stk s) =? 1) && negb (wparsed s) then
+             '(_, s1) <~ pop s ;; COk (set_wparsed s1 true)
+           else COk s) ;;
+    match r with
+    | _ :: _ => CErr EDataAfterEndChar
+    | [] => visit_op op 0 (set_endchar s3 true)      (* then break *)
+    end
+  end.
+
+Definition step_vsindex (op : Z) (r : list Z) (s : ist) : cres ist :=
+  match e_kind e with
+  | KCFF => CErr EInvalidOperator
+  | KCFF2 =>
+    match vsidx s with
+    | Some _ => CErr EDuplicateVsIndex
+    | None =>
+      (* seen_blend is never set by the implementation, so VsIndexAfterBlend cannot occur *)
+      if negb (len (stk s) =? 1) then CErr EInvalidArgumentsStackLength else
+      s1 <~ visit_op op 0 s ;;
+      '(v, s2) <~ pop s1 ;;
+      match try_as_u16 v with
+      | None => CErr EInvalidArgumentsStackLength
+      | Some i => k r (set_vsidx s2 (Some i))
+      end
+    end
+  end.
+
+Definition step_blend (op : Z) (r : list Z) (s : ist) : cres ist :=
+  match e_kind e with
+  | KCFF => CErr EInvalidOperator
+  | KCFF2 =>
+    if negb (e_variable e) then CErr EMissingVariationStore else
+    match stk s with
+    | [] => CErr EInvalidArgumentsStackLength
+    | _ =>
+      s1 <~ visit_op op 0 s ;;
+      '(sc, s2) <~ blend_scalars e s1 ;;
+      s3 <~ blend e sc s2 ;;
+      k r s3
+    end
+  end.
+
+Definition step_mask (op : Z) (r : list Z) (s : ist) : cres ist :=
+  let '(cnt, w) := stem_count s in
+  s1 <~ visit_op op 0 s ;;
+  let s1 := set_wparsed (set_stk s1 []) w in
+  st <~ add_u32 (e_mode e) (stems s1) (cnt / 2) ;;
+  st7 <~ add_u32 (e_mode e) st 7 ;;
+  let nb := st7 / 8 in
+  if len r <? nb then CErr (EParse BadOffset)
+  else k (drop nb r) (set_stems s1 st).
+
+Definition step_shortint (r : list Z) (s : ist) : cres ist :=
+  match r with
+  | b1 :: b2 :: r2 => s1 <~ push e (of_int (to_signed 16 (b1 * 256 + b2))) s ;; k r2 s1
+  | _ => CErr (EParse Eof)
+  end.
+
+Definition step_int1 (op : Z) (r : list Z) (s : ist) : cres ist :=
+  s1 <~ push e (of_int (parse_int1_expr op)) s ;; k r s1.
+
+(* parse_int2 / parse_int3: debug_assert! on the range of the result *)
+Definition step_int23 (v lo hi : Z) (r2 : list Z) (s : ist) : cres ist :=
+  match e_mode e with
+  | Debug => if (lo <=? v) && (v <=? hi) then s1 <~ push e (of_int v) s ;; k r2 s1 else CPanic
+  | Release => s1 <~ push e (of_int v) s ;; k r2 s1
+  end.
+
+Definition step_int2 (op : Z) (r : list Z) (s : ist) : cres ist :=
+  match r with
+  | b1 :: r2 => step_int23 (parse_int2_expr op b1) 108 1131 r2 s
+  | [] => CErr (EParse Eof)
+  end.
+
+Definition step_int3 (op : Z) (r : list Z) (s : ist) : cres ist :=
+  match r with
+  | b1 :: r2 => step_int23 (parse_int3_expr op b1) (-1131) (-108) r2 s
+  | [] => CErr (EParse Eof)
+  end.
+
+Definition step_fixed (r : list Z) (s : ist) : cres ist :=
+  match r with
+  | b1 :: b2 :: b3 :: b4 :: r2 =>
+    s1 <~ push e (of_fixed (to_signed 32 (((b1 * 256 + b2) * 256 + b3) * 256 + b4))) s ;; k r2 s1
+  | _ => CErr (EParse Eof)
+  end.
+
+Definition step (op : Z) (r : list Z) (s : ist) : cres ist :=
+  match classify op with
+  | KReserved => CErr EInvalidOperator
+  | KStem => step_stem op r s
+  | KVMove | KHMove => step_move 2 op r s
+  | KRMove => step_move 3 op r s
+  | KSimple => step_simple op r s
+  | KCallL => step_call (local_subrs e) r s
+  | KCallG => step_call (Some (e_gsubrs e)) r s
+  | KReturn =>
+    match e_kind e with
+    | KCFF => visit_op op 0 s           (* then break *)
+    | KCFF2 => CErr EInvalidOperator
+    end
+  | KEscape => step_escape r s
+  | KEndchar => step_endchar op r s
+  | KVsIndex => step_vsindex op r s
+  | KBlend => step_blend op r s
+  | KMask => step_mask op r s
+  | KShortInt => step_shortint r s
+  | KInt1 => step_int1 op r s
+  | KInt2 => step_int2 op r s
+  | KInt3 => step_int3 op r s
+  | KFixed => step_fixed r s
+  end.
+End Step.
 
 Fixpoint run (df : nat) (e : env) (depth : Z) (cs : list Z) (s0 : ist) {struct df} : cres ist :=
   match df with
@@ -591,187 +790,10 @@ Fixpoint run (df : nat) (e : env) (depth : Z) (cs : list Z) (s0 : ist) {struct d
        match b with
        | [] => COk s
        | op :: r =>
-       match n with
-       | O => CFuel
-       | S n' =>
-         match classify op with
-         | KReserved => CErr EInvalidOperator
-         | KStem =>
-           let '(cnt, w) := stem_count s in
-           st <~ add_u32 (e_mode e) (stems s) (cnt / 2) ;;
-           s1 <~ visit_op op 0 (set_stems (set_wparsed s w) st) ;;
-           loop n' r (set_stk s1 [])
-         | KVMove | KHMove =>
-           let '(off, w) := move_offset s 2 in
-           s1 <~ visit_op op off (set_wparsed s w) ;;
-           loop n' r (set_stk s1 [])
-         | KRMove =>
-           let '(off, w) := move_offset s 3 in
-           s1 <~ visit_op op off (set_wparsed s w) ;;
-           loop n' r (set_stk s1 [])
-         | KSimple =>
-           s1 <~ visit_op op 0 s ;;
-           loop n' r (set_stk s1 [])
-         | KCallL =>
-           match stk s with [] => CErr EInvalidArgumentsStackLength | _ =>
-           if depth =? STACK_LIMIT then CErr ENestingLimitReached else
-           match local_subrs e with
-           | None => CErr ENoLocalSubroutines
-           | Some subrs =>
-             '(v, s1) <~ pop s ;;
-             idx <~ conv_subroutine_index v (calc_subroutine_bias (len subrs)) ;;
-             match nth_opt subrs idx with
-             | None => CErr EInvalidSubroutineIndex
-             | Some sub =>
-               s2 <~ run df' e (depth + 1) sub s1 ;;
-               match after_call s2 r with
-               | Some res => res
-               | None => loop n' r s2
-               end
-             end
-           end end
-         | KCallG =>
-           match stk s with [] => CErr EInvalidArgumentsStackLength | _ =>
-           if depth =? STACK_LIMIT then CErr ENestingLimitReached else
-           '(v, s1) <~ pop s ;;
-           idx <~ conv_subroutine_index v (calc_subroutine_bias (len (e_gsubrs e))) ;;
-           match nth_opt (e_gsubrs e) idx with
-           | None => CErr EInvalidSubroutineIndex
-           | Some sub =>
-             s2 <~ run df' e (depth + 1) sub s1 ;;
-             match after_call s2 r with
-             | Some res => res
-             | None => loop n' r s2
-             end
-           end end
-         | KReturn =>
-           match e_kind e with
-           | KCFF => visit_op op 0 s           (* then break *)
-           | KCFF2 => CErr EInvalidOperator
-           end
-         | KEscape =>
-           match r with
-           | [] => CErr (EParse Eof)
-           | op2 :: r2 =>
-             if is_flex_op op2 then
-               s1 <~ visit_op op2 0 s ;; loop n' r2 (set_stk s1 [])
-             else CErr EUnsupportedOperator
-           end
-         | KEndchar =>
-           match e_kind e with
-           | KCFF2 => CErr EInvalidOperator
-           | KCFF =>
-             s3 <~ (if (len (stk s) =? 4) || (negb (wparsed s) && (len (stk s) =? 5)) then
-                      if depth =? STACK_LIMIT then CErr ENestingLimitReached else
-                      '(av, s1) <~ pop s ;;
-                      match (match try_as_u8 av with Some c => seac_code_to_gid e c | None => None end) with
-                      | None => CErr EInvalidSeacCode
-                      | Some accent =>
-                      '(bv, s1) <~ pop s1 ;;
-                      match (match try_as_u8 bv with Some c => seac_code_to_gid e c | None => None end) with
-                      | None => CErr EInvalidSeacCode
-                      | Some base =>
-                      '(dy, s1) <~ pop s1 ;;
-                      '(dx, s1) <~ pop s1 ;;
-                      s1 <~ (if negb (wparsed s1) && negb (len (stk s1) =? 0)
-                             then '(_, s') <~ pop s1 ;; COk (set_wparsed s' true) else COk s1) ;;
-                      let s1 := set_seac s1 true in
-                      match nth_opt (e_glyphs e) base with
-                      | None => CErr EInvalidSeacCode
-                      | Some bcs =>
-                        (* each component is a complete charstring: own width and hints *)
-                        s2 <~ run df' e (depth + 1) bcs (set_stems (set_wparsed s1 false) 0) ;;
-                        match nth_opt (e_glyphs e) accent with
-                        | None => CErr EInvalidSeacCode
-                        | Some acs =>
-                          (* enter_seac(Accent): x = dx, y = dy *)
-                          let s2 := set_ps (set_stems (set_wparsed s2 false) 0) (set_xy (ps s2) dx dy) [] in
-                          run df' e (depth + 1) acs s2
-                        end
-                      end end end
-                    else if (len (stk s) =? 1) && negb (wparsed s) then
-                      '(_, s1) <~ pop s ;; COk (set_wparsed s1 true)
-                    else COk s) ;;
-             match r with
-             | _ :: _ => CErr EDataAfterEndChar
-             | [] => visit_op op 0 (set_endchar s3 true)      (* then break *)
-             end
-           end
-         | KVsIndex =>
-           match e_kind e with
-           | KCFF => CErr EInvalidOperator
-           | KCFF2 =>
-             match vsidx s with
-             | Some _ => CErr EDuplicateVsIndex
-             | None =>
-               (* seen_blend is never set by the implementation, so VsIndexAfterBlend cannot occur *)
-               if negb (len (stk s) =? 1) then CErr EInvalidArgumentsStackLength else
-               s1 <~ visit_op op 0 s ;;
-               '(v, s2) <~ pop s1 ;;
-               match try_as_u16 v with
-               | None => CErr EInvalidArgumentsStackLength
-               | Some i => loop n' r (set_vsidx s2 (Some i))
-               end
-             end
-           end
-         | KBlend =>
-           match e_kind e with
-           | KCFF => CErr EInvalidOperator
-           | KCFF2 =>
-             if negb (e_variable e) then CErr EMissingVariationStore else
-             match stk s with
-             | [] => CErr EInvalidArgumentsStackLength
-             | _ =>
-               s1 <~ visit_op op 0 s ;;
-               '(sc, s2) <~ blend_scalars e s1 ;;
-               s3 <~ blend e sc s2 ;;
-               loop n' r s3
-             end
-           end
-         | KMask =>
-           let '(cnt, w) := stem_count s in
-           s1 <~ visit_op op 0 s ;;
-           let s1 := set_wparsed (set_stk s1 []) w in
-           st <~ add_u32 (e_mode e) (stems s1) (cnt / 2) ;;
-           st7 <~ add_u32 (e_mode e) st 7 ;;
-           let nb := st7 / 8 in
-           if len r <? nb then CErr (EParse BadOffset)
-           else loop n' (drop nb r) (set_stems s1 st)
-         | KShortInt =>
-           match r with
-           | b1 :: b2 :: r2 => s1 <~ push e (of_int (to_signed 16 (b1 * 256 + b2))) s ;; loop n' r2 s1
-           | _ => CErr (EParse Eof)
-           end
-         | KInt1 => s1 <~ push e (of_int (parse_int1_expr op)) s ;; loop n' r s1
-         | KInt2 =>
-           match r with
-           | b1 :: r2 =>
-             let v := parse_int2_expr op b1 in
-             match e_mode e with
-             | Debug => if (108 <=? v) && (v <=? 1131) then s1 <~ push e (of_int v) s ;; loop n' r2 s1 else CPanic
-             | Release => s1 <~ push e (of_int v) s ;; loop n' r2 s1
-             end
-           | [] => CErr (EParse Eof)
-           end
-         | KInt3 =>
-           match r with
-           | b1 :: r2 =>
-             let v := parse_int3_expr op b1 in
-             match e_mode e with
-             | Debug => if (-1131 <=? v) && (v <=? -108) then s1 <~ push e (of_int v) s ;; loop n' r2 s1 else CPanic
-             | Release => s1 <~ push e (of_int v) s ;; loop n' r2 s1
-             end
-           | [] => CErr (EParse Eof)
-           end
-         | KFixed =>
-           match r with
-           | b1 :: b2 :: b3 :: b4 :: r2 =>
-             s1 <~ push e (of_fixed (to_signed 32 (((b1 * 256 + b2) * 256 + b3) * 256 + b4))) s ;;
-             loop n' r2 s1
-           | _ => CErr (EParse Eof)
-           end
+         match n with
+         | O => CFuel
+         | S n' => step (run df' e) (loop n') e depth op r s
          end
-       end
        end) (length cs) cs s0
   end.
 
